@@ -242,7 +242,12 @@ def sourceLoop (source : Str) : List Str → Outcome (Str × Str)
       if cont then
         sourceLoop (trimSpace (trimSpace source ++ c!" " ++ trimSpace l)) ls
       else
-        (joinSubLines (split (trimSpace l) c!" ") ls).bind fun organism => .ok (source, organism)
+        -- SOURCE ends here: with its ORGANISM line or, when the record has none, with the next keyword, which is
+        -- not the organism (6ccbb58):  if quickSubMetaCheck(subLine) && headString == "ORGANISM" { … }; break
+        (quickSubMetaCheck l).bind fun sm =>
+          if sm && headString == c!"ORGANISM" then
+            (joinSubLines (split (trimSpace l) c!" ") ls).bind fun organism => .ok (source, organism)
+          else .ok (source, [])
 
 def getSourceOrganism (splitLine subLines : List Str) : Outcome (Str × Str) :=
   sourceLoop (trimSpace (join c!" " (splitLine.drop 1))) subLines
